@@ -139,5 +139,18 @@ func main() {
 	sc := exg.FuncDecl(st, "Settings.SetupConfig")
 	fmt.Printf("def setupNetCases : List (List String) := %s\n", strLists(exg.SwitchCases(st, sc, "strings.ToLower(conf.ActiveNet)", ssrc)))
 	ex.DefStrList("setupConfigCalls", exg.StaticCalls(st, sc))
+	ex.Comment("the argument expressions of the helper's call in DefaultChecker.ContextCheck (which height, which configuration fields)")
+	{
+		var args []string
+		ast.Inspect(exg.FuncDecl(tx, "DefaultChecker.ContextCheck"), func(x ast.Node) bool {
+			if c, ok := x.(*ast.CallExpr); ok && exg.CalleeName(tx, c) == "core/transaction.checkTransactionCrossChainUTXO" {
+				for _, a := range c.Args {
+					args = append(args, exg.Src(tx, a))
+				}
+			}
+			return true
+		})
+		ex.DefStrList("policyCallArgs", args)
+	}
 	ex.Footer("C31")
 }
